@@ -337,6 +337,16 @@ def layer_hydraulics(s):
 # ------------------------------------------------------------------------------------------------
 @st.composite
 def iwcs(draw, P, s, nl):
+    r = draw(_iwcs(P, s, nl))
+    if r["method"] == "Layer" and nl > 1 and draw(st.booleans()):
+        # entries are assigned by layer NUMBER: the order in which the user lists them is irrelevant
+        order = draw(st.permutations(list(range(nl))))
+        r = dict(r, depth_layer=[r["depth_layer"][i] for i in order], value=[r["value"][i] for i in order])
+    return r
+
+
+@st.composite
+def _iwcs(draw, P, s, nl):
     kind = weighted(draw, P["iwc"])
     layers = list(range(1, nl + 1))
     if kind in ("FC", "WP", "SAT"):
@@ -452,15 +462,16 @@ def groundwaters(draw, P, start, ndays):
 @st.composite
 def co2s(draw, y0, y1, kinds=None):
     k = draw(st.sampled_from(list(kinds or ["const", "const_default", "table"])))
+    ref = {"ref": float(draw(st.sampled_from([330.0, 400.0, 450.0])))} if draw(st.integers(0, 4)) == 0 else {}
     if k == "const":
-        return {"constant": float(draw(st.integers(250, 2500)))}
+        return dict({"constant": float(draw(st.integers(250, 2500)))}, **ref)
     if k == "const_default":
-        return {"constant_default": True}
+        return dict({"constant_default": True}, **ref)
     base = float(draw(st.integers(280, 900)))
     slope = draw(f1(-2.0, 25.0))
     step = draw(st.sampled_from([1, 5, 5, 10]))       # yearly, 5-yearly or decadal entries (interpolated in between)
     first = (y0 - 1) - ((y0 - 1) % step) - (step if step > 1 else 0)
-    return {"table": [[y, max(250.0, base + slope * (y - y0))] for y in range(first, y1 + 2 * step + 1, step)]}
+    return dict({"table": [[y, max(250.0, base + slope * (y - y0))] for y in range(first, y1 + 2 * step + 1, step)]}, **ref)
 
 
 # ------------------------------------------------------------------------------------------------
